@@ -1,6 +1,7 @@
 import VOPyVerif.Drv.Proto
 import VOPyVerif.Model.Acq
 import VOPyVerif.Model.Thompson
+import VOPyVerif.Model.Locate
 /-! Driver front end for property C07 (acquisition maximisers; what reaches the model).
 
 Numbers are exact rationals, `<vals>` a vector, `<table>` a matrix with one row per objective
@@ -45,6 +46,12 @@ string of `0`/`1`; floats OUT are IEEE-754 bit patterns as decimal naturals, `na
   `Thompson.priorProb` / `Thompson.postProb` (exact)
 * `thval <n> <m> <K> <bits> <j> <cost|none>` → `err` | `<K float bit patterns>` —
   `Thompson.forward` at `Float` (`cost` = exact rational of `costs[j]`)
+
+`DiscreteDesignSpace.locate_points` (`Model/Locate.lean`):
+* `locate <xs> <X> <atol>`                → `err` | `<indices>` — `Locate.locate` (`err` = ValueError)
+* `locband <x> <X> <tol>`                 → nat list — `Problem.nearestBand`: every design whose squared
+  distance to `x` is within `tol` of the minimum (the indices a float `argmin` may legitimately return)
+* `locdist <x> <X>`                       → rational | `err` — squared distance to the nearest design
 -/
 namespace VOPy.Drv.C07
 open VOPy VOPy.Proto VOPy.Acq
@@ -113,8 +120,34 @@ def handleThompson (args : List String) : Option String :=
     | _, _, _ => some bad
   | _ => none
 
+/-- the `locate_points` ops -/
+def handleLocate (args : List String) : Option String :=
+  match args with
+  | ["locate", xs, x, a] =>
+    match parseMat xs, parseMat x, parseRat a with
+    | some xs, some X, some atol =>
+      match Locate.locate xs X atol with
+      | .valueError => some "err"
+      | .ok idx => some (fmtNats idx)
+    | _, _, _ => some bad
+  | ["locband", x, xx, t] =>
+    match parseVec x, parseMat xx, parseRat t with
+    | some x, some X, some tol => some (fmtNats (Problem.nearestBand x X tol))
+    | _, _, _ => some bad
+  | ["locdist", x, xx] =>
+    match parseVec x, parseMat xx with
+    | some x, some X =>
+      match Locate.locOne x X with
+      | none => some "err"
+      | some p => some (fmtRat p.2)
+    | _, _ => some bad
+  | _ => none
+
 def handle (args : List String) : String :=
   match handleThompson args with
+  | some r => r
+  | none =>
+  match handleLocate args with
   | some r => r
   | none =>
   match args with
